@@ -14,6 +14,37 @@ import os as _os
 # the directory as it is.
 _seed = _os.environ.pop('MESON_VERIF_SHUFFLE_DIRS', None)
 _wlog = _os.environ.pop('MESON_VERIF_WRITELOG', None)
+_rlog = _os.environ.pop('MESON_VERIF_READLOG', None)
+
+if _rlog:
+    # (used by C15) names of the build-definition files this very process opens for reading
+    import sys as _sys
+
+    _rl = open(_rlog, 'a', buffering=1)
+    _rfd = _rl.fileno()
+    _rpid = _os.getpid()
+    _RNAMES = ('meson.build', 'meson.options', 'meson_options.txt')
+
+    def _raudit(event, args):
+        try:
+            if event != 'open' or _os.getpid() != _rpid:
+                return
+            path, _mode, flags = args
+            if isinstance(path, bytes):
+                path = _os.fsdecode(path)
+            if isinstance(path, str) and isinstance(flags, int) and not flags & (_os.O_WRONLY | _os.O_RDWR) \
+                    and path.endswith(_RNAMES) and _os.path.basename(path) in _RNAMES:
+                # a file that is only copied (wrap patch overlays, packagefiles) is not read as a build definition
+                fr = _sys._getframe(1)
+                while fr is not None:
+                    if fr.f_code.co_filename.endswith('shutil.py'):
+                        return
+                    fr = fr.f_back
+                _os.write(_rfd, (_os.path.abspath(path) + '\n').encode('utf-8', 'surrogateescape'))
+        except Exception:
+            pass
+
+    _sys.addaudithook(_raudit)
 
 if _wlog:
     # Names of the files this very process (meson, not its children) opens for writing or renames into place:
